@@ -718,3 +718,55 @@ benign("c07-new-extension-command", ["C07", "C01", "C02"], [(C, '''class Discard
 
 
 class DiscardCommand(ActionCommand):''')])
+
+# --------------------------------------------------------------------------- C13
+seeded("h1-shared-table-edited", ["C13"], "H1", [(C, '''    def get_expected_first(self) -> List[str]:
+        return ["left_parenthesis"]
+
+
+class AnyofCommand(TestCommand):''', '''    def get_expected_first(self) -> List[str]:
+        self.args_definition[0]["required"] = True
+        return ["left_parenthesis"]
+
+
+class AnyofCommand(TestCommand):''')])
+seeded("h1-match-type-cache", ["C13"], "H1", [(C, '''        if "extension_values" in arg:
+            extension = arg["extension_values"].get(value.lower())
+            if extension:''', '''        if "extension_values" in arg:
+            extension = arg["extension_values"].get(value.lower())
+            if extension and not check_extension:
+                arg.setdefault("values", []).append(value.lower())
+            if extension:''')], "a factory call turns an extension value into a plain one for the rest of the process")
+seeded("h1-module-cache", ["C13"], "H1", [(C, '''def get_command_instance(
+    name: str, parent: Optional[Command] = None, checkexists: bool = True
+) -> Command:''', '''_seen_commands: List[str] = []
+
+
+def get_command_instance(
+    name: str, parent: Optional[Command] = None, checkexists: bool = True
+) -> Command:
+    _seen_commands.append(name)''')])
+seeded("h2-bracket-stack-not-reset", ["C13"], "H2", [(P, "        self.__expected_brackets = []\n        RequireCommand", "        RequireCommand")], "a script that ends inside a bracket poisons the next parse")
+seeded("h2-stringlist-not-reset", ["C13"], "H2", [(P, "        self.__curstringlist = None\n", "")])
+seeded("h2-reset-after-loop-start", ["C13"], "H2", [(P, '''        self.__reset_parser()
+        try:
+            ttype: str
+            tvalue: bytes = b""
+            for ttype, tvalue in self.lexer.scan(text):''', '''        try:
+            ttype: str
+            tvalue: bytes = b""
+            for ttype, tvalue in self.lexer.scan(text):
+                if self.lexer.pos == 0:
+                    self.__reset_parser()''')], "leading whitespace: pos != 0 at the first token, state never reset")
+seeded("h2-lexer-pos-kept", ["C13"], "H2", [(P, "        self.pos = 0\n        self.text = text", "        self.text = text")])
+seeded("h3-registry-reset-dropped", ["C13", "C07"], {"C13": "H3", "C07": "E6"}, [(P, "        RequireCommand.loaded_extensions = []\n", "")], "suite creates a Parser per test but the list is class-level: order-dependent only")
+seeded("h3-registry-reset-on-instance", ["C13"], "H3", [(P, "        RequireCommand.loaded_extensions = []\n", "        self.loaded_extensions = []\n")])
+seeded("h4-factory-reads-registry", ["C13"], "H4", [(F, '''        self.__require_tag_extension(cmd, tag)
+        cmd.check_next_arg("tag", tag, check_extension=False)''', '''        self.__require_tag_extension(cmd, tag)
+        cmd.check_next_arg("tag", tag)''')], "pre-fix behaviour")
+seeded("h4-factory-lookup-checks", ["C13"], "H4", [(F, '''cmd = commands.get_command_instance("envelope", ifcontrol, False)''', '''cmd = commands.get_command_instance("envelope", ifcontrol)''')])
+benign("c13-reset-uses-clear", ["C13", "C07"], [(P, "        RequireCommand.loaded_extensions = []\n", "        RequireCommand.loaded_extensions.clear()\n")])
+benign("c13-local-named-like-table", ["C13"], [(F, '''        conditions = []
+        negate = False''', '''        conditions = []
+        match_type = None
+        negate = False''')])
